@@ -9,6 +9,15 @@ package main
 //	                          per-process hash seed, so hit/miss is not replayable: lines print `-`
 //	A k v | G k | K k (Peek) | C k (Contains) | D k (Remove) | PG (Purge) | LEN
 //
+//	WIRE <AuthWebhook|SessionCount> <ttl ms>
+//	                builds the backend's cache manager (server/backend/cache.New) the way backend.New
+//	                does, with the named cache's TTL option set to <ttl> and the other expiring cache's
+//	                to one hour, and checks that each cache expires by ITS OWN option: the entry of
+//	                the named cache is served right after the Add, is gone within 25 x ttl, and the
+//	                entry of the other cache is still served then. Wall-clock behaviour is not in the
+//	                model (the line is answered `WIRE done` by both sides): oracle only; the static
+//	                counterpart is Props/C20Wiring.lean over Generated/CacheWiring.lean.
+//
 // Oracle in every mode (lru_shard_spec): a Get/Peek hit returns the value of the last Add
 // of that key not followed by Remove/Purge; Contains/hit never for a removed key.
 
@@ -18,7 +27,10 @@ import (
 	"strings"
 	"time"
 
+	"github.com/yorkie-team/yorkie/api/types"
 	"github.com/yorkie-team/yorkie/pkg/cache"
+	pkgtypes "github.com/yorkie-team/yorkie/pkg/types"
+	bcache "github.com/yorkie-team/yorkie/server/backend/cache"
 )
 
 func init() { register("lru", runLru) }
@@ -40,6 +52,73 @@ type lruSt struct {
 	ref        map[int]int
 	hits, miss int
 	evicted    bool
+}
+
+// wire checks that the caches of the backend's cache manager expire by their own TTL option.
+func wire(c *Ctx, line string) {
+	t := strings.Fields(line)
+	if len(t) != 3 || (t[1] != "AuthWebhook" && t[1] != "SessionCount") {
+		c.Obs("bad-op")
+		return
+	}
+	ms, _ := strconv.Atoi(t[2])
+	if ms < 20 || ms > 2000 {
+		c.Obs("bad-op")
+		return
+	}
+	ttl := time.Duration(ms) * time.Millisecond
+	opts := bcache.Options{AuthWebhookCacheSize: 8, AuthWebhookCacheTTL: time.Hour, SnapshotCacheSize: 8,
+		ChannelSessionCountCacheSize: 8, ChannelSessionCountCacheTTL: time.Hour}
+	other := "SessionCount"
+	if t[1] == "AuthWebhook" {
+		opts.AuthWebhookCacheTTL = ttl
+	} else {
+		opts.ChannelSessionCountCacheTTL = ttl
+		other = "AuthWebhook"
+	}
+	m, err := bcache.New(opts)
+	c.Obs("WIRE done")
+	if err != nil {
+		c.Oracle("cache.New failed: %v", err)
+		return
+	}
+	get := func(which string) bool {
+		if which == "AuthWebhook" {
+			_, ok := m.AuthWebhook.Get("k")
+			return ok
+		}
+		_, ok := m.SessionCount.Get("k")
+		return ok
+	}
+	t0 := time.Now()
+	m.AuthWebhook.Add("k", pkgtypes.Pair[int, *types.AuthWebhookResponse]{First: 200})
+	m.SessionCount.Add("k", 3)
+	// served right after the Add (only judged when this goroutine was not descheduled past ttl/2)
+	h1, h2 := get(t[1]), get(other)
+	if early := time.Since(t0); early < ttl/2 && (!h1 || !h2) {
+		c.Oracle("cache manager: entry not served %s after the Add (%s hit=%v, %s hit=%v)", early, t[1], h1, other, h2)
+		return
+	}
+	bound := 25 * ttl
+	for get(t[1]) {
+		if time.Since(t0) > bound {
+			c.Oracle("cache manager built with %s TTL option = %s (the other expiring cache: 1h): the %s cache still serves its entry after %s – "+
+				"it does not expire by its own TTL option (built from another cache's?)", t[1], ttl, t[1], time.Since(t0).Round(time.Millisecond))
+			return
+		}
+		time.Sleep(ttl / 10)
+	}
+	if age := time.Since(t0); age < ttl-ttl/10 {
+		c.Oracle("cache manager: the %s entry was gone after %s, before its TTL %s", t[1], age, ttl)
+	}
+	c.Count("wire:" + t[1] + ":expired-by-own-ttl")
+	if !get(other) {
+		c.Oracle("cache manager built with %s TTL option = %s and %s TTL option = 1h: the %s entry expired together with the %s entry – "+
+			"the %s cache does not use its own TTL option", t[1], ttl, other, other, t[1], other)
+		return
+	}
+	c.Count("wire:" + other + ":alive-by-own-ttl")
+	c.Nontrivial()
 }
 
 func (s *lruSt) exec(line string) {
@@ -121,7 +200,8 @@ func (s *lruSt) exec(line string) {
 }
 
 func runLru(c *Ctx) error {
-	c.stats.Rule = "random Add/Get/Peek/Contains/Remove/Purge programs on cache.LRU and cache.LRUWithExpires; " +
+	c.stats.Rule = "random Add/Get/Peek/Contains/Remove/Purge programs on cache.LRU and cache.LRUWithExpires (+ per run two WIRE traces: " +
+		"the backend cache manager built with distinct TTL options, each expiring cache must expire by its own); " +
 		"non-trivial = at least one hit, one miss of a key that was added (eviction) or one eviction reported by Add; distinct by trace hash"
 	if c.Replay != nil {
 		s := &lruSt{c: c}
@@ -132,6 +212,10 @@ func runLru(c *Ctx) error {
 				continue
 			}
 			c.Cmd("%s", l)
+			if strings.HasPrefix(l, "WIRE") {
+				wire(c, l)
+				continue
+			}
 			if s.l == nil && !strings.HasPrefix(l, "NEW") {
 				s.exec("NEW ex 0")
 			}
@@ -180,6 +264,14 @@ func runLru(c *Ctx) error {
 		if s.hits > 0 && (s.miss > 0 || s.evicted) {
 			c.Nontrivial()
 		}
+	}
+	// the cache manager's wiring: each expiring cache by its own TTL option (twice per run: every
+	// construction leaves the janitor goroutine of an expirable LRU behind)
+	for k, which := range []string{"SessionCount", "AuthWebhook"} {
+		c.Trace(fmt.Sprintf("lru-wire-%d-%d", c.Seed, k))
+		l := fmt.Sprintf("WIRE %s %d", which, 100+20*r.Intn(4))
+		c.Cmd("%s", l)
+		wire(c, l)
 	}
 	return nil
 }
